@@ -651,7 +651,7 @@ def _paths(t, pre=()):
     elif k == "N" and t[2] == "|O":
         for j, x in enumerate(t[4]):
             out += _paths(x, pre + (4, j))
-    elif k in ("D", "O", "C", "E"):
+    elif k in ("D", "O", "E"):  # (Counter values stay ints)
         f = 2 if k == "E" else 1
         for j, (a, b) in enumerate(t[f]):
             out += _paths(b, pre + (f, j, 1))
@@ -946,7 +946,7 @@ def _size(t):
 
 
 def generate(rng, tier, mult):
-    n = (110 if tier == "quick" else 2600) * mult
+    n = (350 if tier == "quick" else 9000) * mult
     cases = []
 
     def pair(v, w, how, fp=True):
